@@ -41,6 +41,8 @@ def cause_of(rc):
         return "ubsan"
     if rc == 80:
         return "cpu_watchdog"
+    if rc == 75:
+        return "valgrind"
     if rc is None:
         return "hang"
     if rc < 0:
